@@ -224,6 +224,13 @@ Theorem C18_alias_getattr_canonical_twin ALIASES PREFERRED am :
   forall n s, alias_getattr_var am n s = getattr_var (chain_end ALIASES n) s.
 Proof. exact (alias_getattr_canonical_twin ALIASES PREFERRED am). Qed.
 
+(* re-entry: the names the base class passes back into the wrappers (values setter, nbytes, reindex, to_dataframe) resolve to
+   themselves unless an alias is named like a variable *)
+Theorem C18_reentry_is_identity am s :
+  (forall x, In x (index s) -> ~ In x (akeys (amap am))) -> Inv s ->
+  forall x, In x (row_names s) \/ In x (index s) -> resolve am x = x.
+Proof. exact (reentry_is_identity am s). Qed.
+
 (* ---------------------------------------------------------------- read-only hooks of the mixin *)
 (* _ipython_key_completions_, dir(), `in`, nbytes: calling them changes NOTHING (in particular the container's `index` is not the
    list handed out); the completion hook offers the variables followed by the declared non-trivial aliases; dir() adds the aliases
@@ -397,6 +404,7 @@ Print Assumptions C18_alias_trace_canonical_twin.
 Print Assumptions C18_alias_init_canonical_twin.
 Print Assumptions C18_alias_read_canonical_twin.
 Print Assumptions C18_alias_getattr_canonical_twin.
+Print Assumptions C18_reentry_is_identity.
 Print Assumptions C18_alias_hooks_change_nothing.
 Print Assumptions C18_alias_completions_declared.
 Print Assumptions C18_alias_dir.
